@@ -22,6 +22,12 @@ Ltac pfin I3 I4 :=
        [try discriminate|apply I3]);
   try (let C := fresh in intros C; try rewrite C; auto).
 
+Lemma first_idle_some nw p i : first_idle nw p = Some i -> i < nw /\ p_w p i = PIdle.
+Proof.
+  unfold first_idle. intros H. apply find_some in H. destruct H as [I W]. apply in_seq in I.
+  unfold w_idle in W. destruct (p_w p i); try discriminate. split; [lia|auto].
+Qed.
+
 Lemma pstep_inv nw cap work p a p' :
   pinv cap work p -> pstep true nw cap work p a = Some p' -> pinv cap work p'.
 Proof.
@@ -33,8 +39,12 @@ Proof.
     + destruct (p_cancel p && (pick_ctx || (p_in p =? 0))).
       * inversion H; subst; unfold set_d; cbn. pfin I3 I4.
       * destruct (p_in p); [discriminate|]. inversion H; subst; unfold d_recv; cbn. pfin I3 I4.
-    + inversion H; subst. unfold d_handoff. destruct (p_buf p <? cap) eqn:B; cbn; pfin I3 I4.
-      apply Nat.ltb_lt in B. lia.
+    + inversion H; subst. unfold d_handoff. destruct (p_buf p <? cap) eqn:B; cbn.
+      * pfin I3 I4. apply Nat.ltb_lt in B. lia.
+      * destruct (if cap =? 0 then first_idle nw p else None) as [i|]; cbn; [|pfin I3 I4].
+        repeat split; cbn; auto; try lia.
+        intros j k. unfold upd. destruct (Nat.eqb j i); [|apply I3].
+        unfold busy_of. destruct work; [discriminate|]. intros E. inversion E. lia.
     + destruct (all_workers_done nw p); [|discriminate]. inversion H; subst; unfold set_d; cbn. pfin I3 I4.
     + discriminate.
   - unfold wkstep in H. destruct (i <? nw); [|discriminate].
@@ -44,7 +54,7 @@ Proof.
       * destruct (p_buf p) eqn:B; [discriminate|]. inversion H; subst; unfold set_w; cbn.
         repeat split; cbn; auto; try lia.
         intros j k. unfold upd. destruct (Nat.eqb j i).
-        -- destruct work; [discriminate|]. intros E. inversion E. lia.
+        -- unfold busy_of. destruct work; [discriminate|]. intros E. inversion E. lia.
         -- apply I3.
     + destruct left.
       * inversion H; subst; unfold set_w; cbn. pfin I3 I4.
@@ -67,9 +77,9 @@ Qed.
 (* whether the distributor can move is decided by the input, the stop request and
    its own program counter alone -- never by what the workers are doing -- until it
    has left the loop and waits for them to finish *)
-Lemma distributor_independent_of_workers nw cap p b w :
+Lemma distributor_independent_of_workers nw cap work p b w :
   p_d p <> DWait ->
-  (dstep true nw cap p b = None <-> dstep true nw cap (with_workers p w) b = None).
+  (dstep true nw cap work p b = None <-> dstep true nw cap work (with_workers p w) b = None).
 Proof.
   intros ND. unfold dstep, with_workers; cbn. destruct (p_d p); try tauto.
   - split; discriminate.
@@ -78,21 +88,24 @@ Proof.
   - split; discriminate.
 Qed.
 
-(* with a message in hand the hand-over is always enabled, and a full buffer means a counted drop *)
-Lemma handoff_total nw cap p b :
+(* with a message in hand the hand-over is always enabled; no room (full buffer, or an unbuffered
+   channel with no worker waiting) means a counted drop *)
+Lemma handoff_total nw cap work p b :
   p_d p = DHave ->
-  exists p', dstep true nw cap p b = Some p' /\ p_d p' = DTop /\
-             (p_buf p <? cap = false -> p_dropped p' = S (p_dropped p) /\ p_buf p' = p_buf p) /\
-             (p_buf p <? cap = true -> p_enqueued p' = S (p_enqueued p) /\ p_buf p' = S (p_buf p)).
+  exists p', dstep true nw cap work p b = Some p' /\ p_d p' = DTop /\
+             (can_handoff nw cap p = false -> p_dropped p' = S (p_dropped p) /\ p_enqueued p' = p_enqueued p /\ p_buf p' = p_buf p) /\
+             (can_handoff nw cap p = true -> p_enqueued p' = S (p_enqueued p) /\ p_dropped p' = p_dropped p).
 Proof.
-  intros D. unfold dstep. rewrite D. eexists. split; [reflexivity|]. unfold d_handoff.
-  destruct (p_buf p <? cap); cbn; repeat split; auto; discriminate.
+  intros D. unfold dstep. rewrite D. eexists. split; [reflexivity|]. unfold d_handoff, can_handoff.
+  destruct (p_buf p <? cap); cbn; [repeat split; auto; discriminate|].
+  destruct (cap =? 0); cbn; [|repeat split; auto; discriminate].
+  destruct (first_idle nw p); cbn; repeat split; auto; discriminate.
 Qed.
 
 (* while running (no stop request), input available => the distributor has an enabled step *)
-Lemma distributor_progress nw cap p :
+Lemma distributor_progress nw cap work p :
   p_cancel p = false -> p_in p > 0 -> (p_d p = DTop \/ p_d p = DSel \/ p_d p = DHave) ->
-  exists p', dstep true nw cap p false = Some p'.
+  exists p', dstep true nw cap work p false = Some p'.
 Proof.
   intros C I [D|[D|D]]; unfold dstep; rewrite D.
   - eauto.
@@ -132,7 +145,11 @@ Proof.
     + rewrite C in H. cbn in H. destruct (pick_ctx || (p_in p =? 0)).
       * inversion H; subst; unfold set_d; cbn. lia.
       * destruct (p_in p); [discriminate|]. inversion H; subst; unfold d_recv; cbn. lia.
-    + inversion H; subst. unfold d_handoff. destruct (p_buf p <? cap); cbn; lia.
+    + inversion H; subst. unfold d_handoff. destruct (p_buf p <? cap); cbn; [lia|].
+      destruct (if cap =? 0 then first_idle nw p else None) as [i|] eqn:FI; cbn; [|lia].
+      destruct (cap =? 0); [|discriminate]. destruct (first_idle_some _ _ _ FI) as [L W].
+      pose proof (sum_upto_upd (p_w p) i (busy_of work) nw L) as E. rewrite W in E. cbn [w_cost] in E.
+      unfold busy_of in *. destruct work; cbn in *; lia.
     + destruct (all_workers_done nw p); [|discriminate]. inversion H; subst; unfold set_d; cbn. lia.
     + discriminate.
   - unfold wkstep in H. destruct (i <? nw) eqn:L; [|discriminate]. apply Nat.ltb_lt in L.
@@ -141,8 +158,8 @@ Proof.
       * inversion H; subst; unfold set_w; cbn.
         pose proof (sum_upto_upd (p_w p) i PDone nw L) as E. rewrite W in E. cbn in E. lia.
       * destruct (p_buf p) eqn:B; [discriminate|]. inversion H; subst; unfold set_w; cbn.
-        pose proof (sum_upto_upd (p_w p) i (match work with 0 => PIdle | S k => PBusy k end) nw L) as E.
-        rewrite W in E. cbn [w_cost] in E. destruct work; cbn in *; lia.
+        pose proof (sum_upto_upd (p_w p) i (busy_of work) nw L) as E.
+        rewrite W in E. cbn [w_cost] in E. unfold busy_of in *. destruct work; cbn in *; lia.
     + destruct left.
       * inversion H; subst; unfold set_w; cbn.
         pose proof (sum_upto_upd (p_w p) i PIdle nw L) as E. rewrite W in E. cbn in E. lia.
@@ -169,6 +186,7 @@ Proof.
     + destruct (p_cancel p && (pick_ctx || (p_in p =? 0))); [inversion H; subst; auto|].
       destruct (p_in p); [discriminate|]. inversion H; subst; auto.
     + inversion H; subst. unfold d_handoff. destruct (p_buf p <? cap); auto.
+      destruct (if cap =? 0 then first_idle nw p else None); auto.
     + destruct (all_workers_done nw p); [|discriminate]. inversion H; subst; auto.
     + discriminate.
   - unfold wkstep in H. destruct (i <? nw); [|discriminate]. destruct (p_w p i).
@@ -254,7 +272,8 @@ Proof.
            ++ assert (p_after p = 0) by (destruct (p_after p) as [|[|]]; auto; [exfalso; apply A2; auto|lia]).
               repeat split; auto; try lia; try discriminate.
            ++ repeat split; auto. discriminate.
-      * inversion H0; subst. unfold d_handoff. destruct (p_buf p <? cap); cbn; repeat split; auto; discriminate.
+      * inversion H0; subst. unfold d_handoff. destruct (p_buf p <? cap); [|destruct (if cap =? 0 then first_idle nw p else None)];
+          cbn; repeat split; auto; discriminate.
       * destruct (all_workers_done nw p); [|discriminate]. inversion H0; subst; unfold set_d; cbn.
         repeat split; auto; discriminate.
       * discriminate.
@@ -282,14 +301,14 @@ Lemma distributor_never_blocks_lemma : forall nw cap work p,
   p_buf p <= cap /\
   (* until it has left its loop, whether the distributor can move never depends on the workers *)
   (forall b w, p_d p <> DWait ->
-     (dstep true nw cap p b = None <-> dstep true nw cap (with_workers p w) b = None)) /\
+     (dstep true nw cap work p b = None <-> dstep true nw cap work (with_workers p w) b = None)) /\
   (* with input available and no stop request it can always move *)
   (p_cancel p = false -> p_in p > 0 -> p_d p <> DWait -> p_d p <> DDone ->
-     exists p', dstep true nw cap p false = Some p') /\
+     exists p', dstep true nw cap work p false = Some p') /\
   (* the hand-over itself never waits: a full buffer is a counted drop *)
-  (p_d p = DHave -> forall b, exists p', dstep true nw cap p b = Some p' /\ p_d p' = DTop /\
-  (p_buf p <? cap = false -> p_dropped p' = S (p_dropped p) /\ p_buf p' = p_buf p) /\
-  (p_buf p <? cap = true -> p_enqueued p' = S (p_enqueued p) /\ p_buf p' = S (p_buf p))).
+  (p_d p = DHave -> forall b, exists p', dstep true nw cap work p b = Some p' /\ p_d p' = DTop /\
+  (can_handoff nw cap p = false -> p_dropped p' = S (p_dropped p) /\ p_enqueued p' = p_enqueued p /\ p_buf p' = p_buf p) /\
+  (can_handoff nw cap p = true -> p_enqueued p' = S (p_enqueued p) /\ p_dropped p' = p_dropped p)).
 Proof.
   intros nw cap work p R. destruct (preach_inv _ _ _ _ R) as (I1 & I2 & _ & _).
   split; [auto|]. split; [auto|]. split.
